@@ -246,7 +246,8 @@ class Plan:
   """
 
   def __init__(self, deliveries=(), es=(), write_md=True, param_fn=None,
-               md_writes=None):
+               md_writes=None, read_trials=False):
+    self.read_trials = read_trials  # policy reads all trials via supporter
     # md_writes: {suggest_call_index: [(scope, ns_tuple, key, value), ...]}
     # scope is 'study' or an int trial id; written under (HNS,)+ns_tuple.
     self.md_writes = dict(md_writes or {})
@@ -299,6 +300,8 @@ class HarnessPolicy(pythia.Policy):
     if isinstance(spec, str) and spec.startswith('raise:'):
       raise EXC[spec.split(':', 1)[1]]('injected suggest fault #%d' % idx)
     n = max(0, request.count + int(spec))
+    if plan.read_trials:
+      self._supporter.GetTrials()
     md = request.study_config.metadata.ns(HNS)
     k0 = int(md.get('next', '0'))
     delta = vz.MetadataDelta()
